@@ -52,9 +52,15 @@ class H(dbmc.Harness):
         st = w.icm.instances['i1'].state
         atts = {(a['job_id'], a['attempt_id']): a for a in w.table('attempts')}
         have_rs = {(r['job_id'], r['attempt_id']) for r in w.table('attempt_resources')}
-        cand = [(1, 'a1'), (2, 'b1')] + ([(1, 'a2')] if self.tier != 'quick' else [])
+        cand = [(1, 'a1'), (2, 'b1'), (1, 'a2')]
         for j, a in cand:
             rs = RS1 if j == 1 else RS2
+            if a == 'a2' and self.tier == 'quick':
+                # quick: the second attempt of job 1 only ever sends its completion report (the report of an attempt that is not,
+                # or no longer, the job's current one)
+                if st == 'active':
+                    out.append(('complete', j, a, 'i1', 'Success', 10, 30, rs))
+                continue
             if st == 'active':
                 if (j, a) not in atts:
                     out.append(('schedule', j, a, 'i1'))
@@ -86,7 +92,17 @@ class H(dbmc.Harness):
         if label[0] == 'unschedule_at':
             w.now_ms = label[4]
             return ops.apply(w, ('unschedule',) + tuple(label[1:4]))
-        return ops.apply(w, label)
+        obs = ops.apply(w, label)
+        # ledger of what the workers / the driver reported (independent of the attempt_resources table): a report that carries
+        # resources for an attempt and is handled without error must leave them registered - otherwise that usage is never billed
+        rs = {'started_rs': lambda l: (l[1], l[2], l[5]), 'resources': lambda l: (l[1], l[2], l[3]),
+              'complete': lambda l: (l[1], l[2], l[7]) if len(l) > 7 else None}.get(label[0], lambda l: None)(label)
+        if rs is not None and rs[2]:
+            led = dict(getattr(w, 'rs_ledger', ()))
+            names = set(led.get((rs[0], rs[1]), ())) | {n for n, _ in rs[2]}
+            led[(rs[0], rs[1])] = tuple(sorted(names))
+            w.rs_ledger = tuple(sorted(led.items()))
+        return obs
 
     def pre_view(self, w):
         return totals(w)
@@ -147,6 +163,14 @@ class H(dbmc.Harness):
                 out.append((f'{name}-usage-differs-from-attempt-usage', f'(actual, expected) by key: {bad}; attempts='
                             f'{[(k, a["start_time"], a["rollup_time"], a["end_time"]) for k, a in atts.items()]}'))
 
+        registered = defaultdict(int)
+        for r in w.table('attempt_resources'):
+            registered[(r['job_id'], r['attempt_id'])] += 1
+        for (j, att), names in getattr(w, 'rs_ledger', ()):
+            if (j, att) in atts and registered[(j, att)] < len(names):
+                out.append(('reported-resources-not-registered',
+                            f'attempt {(j, att)} was reported with resources {names} (report handled without error) but attempt_resources has '
+                            f'{registered[(j, att)]} rows for it: its usage (billed {billed(atts[(j, att)])} ms) is never billed; attempt={fmt_att(atts[(j, att)])}'))
         diff('job', act_job, exp_job)
         diff('job-group', act_group, exp_group)
         diff('billing-project-user', act_bp, exp_bp)
@@ -164,6 +188,10 @@ class H(dbmc.Harness):
         drop = set(bf.DROP) - {'start_time', 'end_time', 'rollup_time'}
         d = w.mdb.store.dump(drop=drop)
         return repr(sorted(d.items())) + repr((sorted(w.mirror().items()), w.token, str(w.date)))
+
+
+def fmt_att(a):
+    return {k: a[k] for k in ('start_time', 'rollup_time', 'end_time', 'instance_name')}
 
 
 def totals(w):
@@ -185,13 +213,17 @@ def _patch_snapshot():
     s0, r0 = BW.snapshot, BW.restore
 
     def snapshot(self):
-        return s0(self) + (('date', str(self.date)),)
+        return s0(self) + (('ledger', getattr(self, 'rs_ledger', ())), ('date', str(self.date)),)
 
     def restore(self, snap):
         import datetime
 
         if snap and isinstance(snap[-1], tuple) and len(snap[-1]) == 2 and snap[-1][0] == 'date':
             self.date = datetime.date.fromisoformat(snap[-1][1])
+            snap = snap[:-1]
+        self.rs_ledger = ()
+        if snap and isinstance(snap[-1], tuple) and len(snap[-1]) == 2 and snap[-1][0] == 'ledger':
+            self.rs_ledger = snap[-1][1]
             snap = snap[:-1]
         r0(self, snap)
 
